@@ -69,11 +69,15 @@ def spec_graph(unified):
     return declared, edges
 
 
-def make_case(ctx, g):
-    w = World()
+def make_case(ctx, g, prior=None):
     fails = []
-    b = DocBuilder(g, w, malformed=0.0, repeat_id=0.45, anon=0.5, foreign=0.05)
-    d, scopes = b.random_document(n_records=g.rng.randint(2, 9), n_bundles=0)
+    if prior is None:
+        w = World()
+        b = DocBuilder(g, w, malformed=0.0, repeat_id=0.45, anon=0.5, foreign=0.05)
+        d, scopes = b.random_document(n_records=g.rng.randint(2, 9), n_bundles=0)
+    else:
+        # second chapter of the same history: the document was changed in place after it had been exported once
+        w, b, d, scopes = prior
     doc = w.conts[d]
     try:
         uni = doc.unified()
@@ -140,6 +144,9 @@ def make_case(ctx, g):
     ctx.count("edges", sum(got_edges.values()))
     ctx.count("inferred-nodes", len(inferred))
     ctx.sample({"nodes": len(nodes), "edges": sum(got_edges.values()), "n_ops": len(w.ops)})
+    if prior is None and not fails and g.chance(0.25) and b.mutate_in_place([d]):
+        ctx.count("changed-after-first-export")
+        fails.extend(make_case(ctx, g, prior=(w, b, d, scopes))[1])
     return w, fails
 
 
